@@ -226,6 +226,7 @@ impl Prop for P {
             groups: vec![
                 Group { name: "grammar + seeds + extras + table slice", docs: b(base), widths: tier.pick(wq, wt), full: true },
                 Group { name: "token-level corruption", docs: b(mutants), widths: vec![1, 3, 6, 12, 40], full: false },
+                Group { name: "id attributes on every element / empty id-carrying elements", docs: b(id_universe(tier.pick(1, 2))), widths: vec![1, 4, 9, 30], full: false },
             ],
         })
     }
